@@ -37,6 +37,14 @@ CHECKS = {
    technique="invariant monitor over generated histories: every backend request's offset/length/buffer address checked against the block size",
    text="Every backend request of every file of the chain, over generated histories with all block sizes and slice sizes, is checked for offset, length and buffer alignment to the configured block size.",
    note=SEQ_NOTE + " Caller buffers are 4096-aligned."),
+ "C04": dict(cat="fault_enumeration", design="DESIGN.md 6/C04 and appendix A",
+   technique="crash-point enumeration over generated histories: crash images derived from the recorded request log (systematic request subsets + generated per-block tearing), judged by an independent crash-safe qcow2 checker",
+   text="Generated histories run with durability tracking (a request is durable only if a successful fsync was submitted after it completed). For up to 60 crash points per history the images in which nothing / everything / exactly one / all but one / every small subset of the un-synced requests persisted, plus block-granular torn images, are built and each distinct image is checked: tables parse, reachable pointers valid and initialised, stored refcount >= references.",
+   note=SEQ_NOTE + " Crash points, subsets beyond 6 requests and schedules are sampled."),
+ "C05": dict(cat="fault_enumeration", design="DESIGN.md 6/C05",
+   technique="crash-point enumeration after generated sync points: every crash image is reopened with the library and each block must hold the synced value or a later operation's value",
+   text="Histories with sync points (flush_meta then fsync_range) followed by further operations; crash images after the sync point (same families as C04) are opened with a fresh device and every 512-byte block is compared with {value acknowledged at the sync} U {values written by later operations} U {zeros under a later whole-cluster discard}.",
+   note=SEQ_NOTE + " Crash points, subsets and schedules are sampled."),
  "C06": dict(cat="exploration", design="DESIGN.md 6/C06",
    technique="stateful concurrency testing: generated task batches under a choice-driven deterministic executor, per-block Wing-Gong linearizability oracle over unique write values, then flush+reopen",
    text="Batches of 2..6 tasks issue overlapping read/write/discard/flush/shrink calls; a generated choice vector decides every task poll and every backend completion. Each 512-byte block's history must be linearizable; untouched blocks must not change; the final content must survive flush+reopen. Schedules are sampled, so this refutes but never proves.",
